@@ -67,11 +67,11 @@ class ColumnBackend(ArraySchemaBackend):
             )
 
         def validate_column(check_obj, column_name, return_check_obj=False):
+            # make sure the schema component mutations are reverted after
+            # validation, also when validation raises
+            _orig_name = schema.name
             try:
                 # pylint: disable=super-with-arguments
-                # make sure the schema component mutations are reverted after
-                # validation
-                _orig_name = schema.name
                 validated_check_obj = super(ColumnBackend, self).validate(
                     check_obj,
                     schema.set_name(column_name),
@@ -82,8 +82,6 @@ class ColumnBackend(ArraySchemaBackend):
                     lazy=lazy,
                     inplace=inplace,
                 )
-                # revert the schema component mutations
-                schema.name = _orig_name
 
                 if return_check_obj:
                     return validated_check_obj
@@ -99,6 +97,9 @@ class ColumnBackend(ArraySchemaBackend):
                 error_handler.collect_error(
                     validation_type(err.reason_code), err.reason_code, err
                 )
+            finally:
+                # revert the schema component mutations
+                schema.name = _orig_name
 
         column_keys_to_check = (
             self.get_regex_columns(schema, check_obj)
